@@ -27,6 +27,9 @@ CLAIMS = {
  "C16": dict(ref="5/C16",
    text="After every decoder call (token path, value path, mixed) and every encoder call within the bound, InputOffset/OutputOffset, StackDepth, every StackIndex and StackPointer equal an independent Tracker over the bytes consumed/produced; for every rejected input the bytes before ByteOffset are a viable prefix, the offending token starts at or contains the offset, and JSONPointer designates the innermost container or a direct child (the duplicated member for ErrDuplicateName); RFC 6901 Pointer methods satisfy their inverse/containment laws on all short pointers.",
    note="SemanticError positions (reflection-driven conversion errors) are outside this claim."),
+ "C04": dict(ref="5/C04",
+   text="On a real Go struct type with int8, string-tagged int8, bool, string, slices, map, pointers, array, nested struct, []byte and an interface, the real Marshal and Unmarshal are executed symbolically: for every int8/uint8/bool value and every well-formed 1-2 byte string in six shapes (nil / empty / populated containers, untyped values behind the interface), under StringifyNumbers x Deterministic, Unmarshal accepts Marshal(v), the decoded value equals v, and re-marshaling reproduces the same bytes.",
+   note="One type; decimal formatting of symbolic integers is a contract stub (digits constrained to denote the value), float digits and time formats are outside. reflect is the engine's go/types-backed environment model; the harness replays natively verbatim."),
  "C05": dict(ref="5/C05",
    text="A decoder fed through a reader whose every Read size is chosen by the solver (tiny buffer capacities 2..8 and the real 64-byte buffer, empty reads, EOF delivered with data) is compared call by call with a decoder over the whole slice, for all sequences of ReadToken/ReadValue/SkipValue/PeekKind within the bound and symbolic input bytes (full range and templates): same results, error class/offset/pointer, InputOffset, StackDepth, StackIndex, StackPointer; returned values equal their input span; reader bytes = first InputOffset bytes ++ UnreadBuffer. A second family injects one transient read error at a solver-chosen Read: the pending ReadToken/ReadValue returns it, state is unchanged, the retry continues identically.",
    note="Bounded: inputs of 2-3 fully symbolic bytes and templates of up to 18 bytes with symbolic holes, 2-3 calls, the first 2-9 Read sizes symbolic then 1-byte reads. UnmarshalRead/UnmarshalDecode for typed targets are reflection-driven and outside this claim. Trusted: gosym semantics (replay-validated), z3."),
